@@ -915,4 +915,12 @@ theorem extract_quic_packet_eq_model (mask : MaskFn) (env : Env) (isServer : Boo
     · have hs' : isLong fb = false := by simpa using hs
       exact extract_short mask env isServer guessed ts fb r keys cs hk hc hz hs'
 
+-- Non-vacuity: a short-header packet and a Retry through the translated code, with a toy mask (first five sample bytes)
+example : Gen.Py.extract_quic_packet (maskE fun _ _ s => some (s.take 5)) false [0xaa] (fun _ => some [1]) none
+      ([0x41, 0xaa] ++ List.replicate 24 7) 9 =
+    .ok ((extract (fun _ _ s => some (s.take 5)) ⟨fun _ => some [1], false⟩ false [0xaa] 9 ([0x41, 0xaa] ++ List.replicate 24 7)).pkts.map ofPkt)
+      { tls_data := [] } ∧
+    (extract (fun _ _ s => some (s.take 5)) ⟨fun _ => some [1], false⟩ false [0xaa] 9 ([0x41, 0xaa] ++ List.replicate 24 7)).pkts.length = 1 := by
+  decide +kernel
+
 end TLX.Props.Translated
